@@ -28,14 +28,19 @@ def world():
 
 def _task(args):
     target, variant, tier = args
-    from pyvc.verify import verify_function
+    from pyvc.verify import verify_function, verify_lemma
     from pyvc.core import Budget
     w = world()
-    con = w.reg.contracts[target]
     b = Budget()
     if tier == 'thorough':
         b.obl_ms, b.feas_ms = 60000, 5000
-    r = verify_function(w, con, variant, b)
+    if variant == '@lemma':
+        modname, node, kw = next(x for x in w.reg.lemmas if f'{x[0]}:{x[1].name}' == target)
+        r = verify_lemma(w, modname, node, kw, b)
+        con, variant = None, None
+    else:
+        con = w.reg.contracts[target]
+        r = verify_function(w, con, variant, b)
     obls = []
     for o in r.obligations:
         d = o.to_json()
@@ -50,7 +55,7 @@ def _task(args):
             'exc_paths': r.exc_paths, 'error': r.error, 'seconds': r.seconds, 'solver_seconds': r.solver_seconds,
             'queries': r.queries, 'inlined': sorted(r.inlined), 'by_contract': sorted(r.by_contract),
             'externals': sorted(r.externals), 'source': r.source, 'vacuity': r.vacuity,
-            'assumed': con.assumed}
+            'assumed': bool(con and con.assumed)}
 
 
 def load_findings():
@@ -105,6 +110,10 @@ def main():
         if a.prop in con.props and not con.assumed:
             for v in (con.variants or [None]):
                 tasks.append((target, v, tier))
+    # lemmas (closed formulas over the contracts' vocabulary) registered for the property
+    for modname, node, kw in w.reg.lemmas:
+        if a.prop in kw.get('props', []):
+            tasks.append((f'{modname}:{node.name}', '@lemma', tier))
     results = []
     if tasks:
         with mp.Pool(min(a.jobs, len(tasks))) as pool:
